@@ -415,6 +415,29 @@ def c01_grandparent_groups():
         return "driver subclass of a subclass has properties %r" % (names,)
 
 
+def c08_upload_over_threshold():
+    """KNOWN FINDING (not repaired): an element longer than the junk-recovery threshold on a thresholded
+    connection is cut by junk recovery - a 3000-byte upload never reaches the driver"""
+    from indi import message
+    from indi.message import one_parts
+    from indi.device import values
+    from indi.transport import Buffer
+
+    blob = values.BLOB(bytes(range(256)) * 12, ".bin")
+    msg = message.NewBLOBVector(device="CAM", name="IMG", children=[
+        one_parts.OneBLOB(name="img", value=blob.binary_base64, format=blob.format, size=blob.size)])
+    text = msg.to_string().decode("latin1")
+    got = []
+    buf = Buffer()                      # the server connection handlers use the default threshold (2048)
+    for i in range(0, len(text), 1024):
+        buf.append(text[i:i + 1024])
+        buf.process(got.append)
+    if not got:
+        return "an upload of %d bytes (%d characters on the wire) in 1024-byte reads is never delivered" % (blob.size, len(text))
+
+
+
+
 DEMOS = {k: v for k, v in list(globals().items()) if k[:1] == "c" and k[1:3].isdigit()}
 
 if __name__ == "__main__":
